@@ -58,6 +58,7 @@ func main() {
 	flag.IntVar(&cfg.Delays, "delays", 0, "scheduler delay bound D")
 	flag.BoolVar(&cfg.Race, "race", false, "happens-before race detection")
 	flag.StringVar(&cfg.Solver, "solver", "z3", "z3 | z3-new | cvc5")
+	flag.StringVar(&cfg.XSolver, "xsolver", "", "second solver cross-checking every assertion verdict (z3-new | cvc5)")
 	flag.IntVar(&cfg.TimeoutMs, "timeout-ms", 60000, "per-query solver timeout")
 	flag.IntVar(&cfg.MaxPaths, "max-paths", 0, "stop after this many paths (0 = none); stopping is inconclusive")
 	flag.IntVar(&cfg.Workers, "workers", 16, "parallel workers")
@@ -108,7 +109,7 @@ func main() {
 		o := HarnessOut{Harness: h, Paths: sum.Paths, Infeasible: sum.Infeasible, Decisions: sum.Decisions, DecisionKind: sum.KindCount,
 			Steps: sum.Steps, Violations: sum.Violations, Bounds: sum.Bounds, Unsupported: sum.Unsup, Internal: sum.Internal,
 			Unknowns: sum.Unknowns, Reach: sum.Reach, Ends: sum.Ends, Cuts: sum.Cuts, Foreign: sum.Foreign,
-			Queries:   map[string]int{"total": sum.Queries, "sat": sum.QSat, "unsat": sum.QUnsat, "unknown": sum.QUnknown, "solver_errors": sum.SolverErr},
+			Queries:   map[string]int{"total": sum.Queries, "sat": sum.QSat, "unsat": sum.QUnsat, "unknown": sum.QUnknown, "solver_errors": sum.SolverErr, "assertion_verdicts_cross_checked": sum.XChecked},
 			SolverSec: sum.SolverSec, WallSec: sum.WallSec, Intrinsics: sum.IntrHit, SchedPoints: sum.SchedPts, Switches: sum.Switches,
 			Truncated: sum.Truncated, Config: cfg}
 		o.RepoFns, o.StdFns = P.describeFns(sum.FnHit)
